@@ -669,14 +669,8 @@ EbErrorType load_default_buffer_configuration_settings(
     return return_error;
 }
  // Rate Control
-static RateControlPorts rate_control_ports[] = {
-    {RATE_CONTROL_INPUT_PORT_INLME,                 0},
-    {RATE_CONTROL_INPUT_PORT_PACKETIZATION,         0},
-    {RATE_CONTROL_INPUT_PORT_ENTROPY_CODING,        0},
-    {RATE_CONTROL_INPUT_PORT_INVALID,               0}
-};
-// Rate Control
 static uint32_t rate_control_port_lookup(
+    const RateControlPorts             *rate_control_ports,
     RateControlInputPortTypes           type,
     uint32_t                                port_type_index){
     uint32_t port_index = 0;
@@ -687,7 +681,7 @@ static uint32_t rate_control_port_lookup(
     return (port_count + port_type_index);
 }
 // Rate Control
-static uint32_t rate_control_port_total_count(void){
+static uint32_t rate_control_port_total_count(const RateControlPorts *rate_control_ports){
     uint32_t port_index = 0;
     uint32_t total_count = 0;
 
@@ -701,17 +695,13 @@ typedef struct {
     int32_t  type;
     uint32_t  count;
 } EncDecPorts_t;
-static EncDecPorts_t enc_dec_ports[] = {
-    {ENCDEC_INPUT_PORT_MDC,        0},
-    {ENCDEC_INPUT_PORT_ENCDEC,     0},
-    {ENCDEC_INPUT_PORT_INVALID,    0}
-};
 
 /*****************************************
  * Input Port Lookup
  *****************************************/
 // EncDec
 static uint32_t enc_dec_port_lookup(
+    const EncDecPorts_t *enc_dec_ports,
     int32_t  type,
     uint32_t  port_type_index)
 {
@@ -723,7 +713,7 @@ static uint32_t enc_dec_port_lookup(
     return (port_count + port_type_index);
 }
 // EncDec
-static uint32_t enc_dec_port_total_count(void){
+static uint32_t enc_dec_port_total_count(const EncDecPorts_t *enc_dec_ports){
     uint32_t port_index = 0;
     uint32_t total_count = 0;
 
@@ -1292,14 +1282,20 @@ EB_API EbErrorType svt_av1_enc_init(EbComponentType *svt_enc_component)
 
     EB_ALLOC_PTR_ARRAY(enc_handle_ptr->overlay_input_picture_pool_ptr_array, enc_handle_ptr->encode_instance_total_count);
 
+    // Port tables of this encoder instance (not shared between instances)
     // Rate Control
-    rate_control_ports[0].count = enc_handle_ptr->scs_instance_array[0]->scs_ptr->inlme_process_init_count;
-    rate_control_ports[1].count = EB_PacketizationProcessInitCount;
-    rate_control_ports[2].count = enc_handle_ptr->scs_instance_array[0]->scs_ptr->entropy_coding_process_init_count;
-    rate_control_ports[3].count = 0;
-
-    enc_dec_ports[ENCDEC_INPUT_PORT_MDC].count = enc_handle_ptr->scs_instance_array[0]->scs_ptr->mode_decision_configuration_process_init_count;
-    enc_dec_ports[ENCDEC_INPUT_PORT_ENCDEC].count = enc_handle_ptr->scs_instance_array[0]->scs_ptr->enc_dec_process_init_count;
+    RateControlPorts rate_control_ports[] = {
+        {RATE_CONTROL_INPUT_PORT_INLME, enc_handle_ptr->scs_instance_array[0]->scs_ptr->inlme_process_init_count},
+        {RATE_CONTROL_INPUT_PORT_PACKETIZATION, EB_PacketizationProcessInitCount},
+        {RATE_CONTROL_INPUT_PORT_ENTROPY_CODING, enc_handle_ptr->scs_instance_array[0]->scs_ptr->entropy_coding_process_init_count},
+        {RATE_CONTROL_INPUT_PORT_INVALID, 0}
+    };
+    // EncDec
+    EncDecPorts_t enc_dec_ports[] = {
+        {ENCDEC_INPUT_PORT_MDC, enc_handle_ptr->scs_instance_array[0]->scs_ptr->mode_decision_configuration_process_init_count},
+        {ENCDEC_INPUT_PORT_ENCDEC, enc_handle_ptr->scs_instance_array[0]->scs_ptr->enc_dec_process_init_count},
+        {ENCDEC_INPUT_PORT_INVALID, 0}
+    };
 
     for (instance_index = 0; instance_index < enc_handle_ptr->encode_instance_total_count; ++instance_index) {
         create_ref_buf_descs(enc_handle_ptr, instance_index);
@@ -1489,7 +1485,7 @@ EB_API EbErrorType svt_av1_enc_init(EbComponentType *svt_enc_component)
             enc_handle_ptr->rate_control_tasks_resource_ptr,
             svt_system_resource_ctor,
             enc_handle_ptr->scs_instance_array[0]->scs_ptr->rate_control_tasks_fifo_init_count,
-            rate_control_port_total_count(),
+            rate_control_port_total_count(rate_control_ports),
             EB_RateControlProcessInitCount,
             rate_control_tasks_creator,
             &rate_control_tasks_init_data,
@@ -1527,7 +1523,7 @@ EB_API EbErrorType svt_av1_enc_init(EbComponentType *svt_enc_component)
             enc_handle_ptr->enc_dec_tasks_resource_ptr,
             svt_system_resource_ctor,
             enc_handle_ptr->scs_instance_array[0]->scs_ptr->mode_decision_configuration_fifo_init_count,
-            enc_dec_port_total_count(),
+            enc_dec_port_total_count(enc_dec_ports),
             enc_handle_ptr->scs_instance_array[0]->scs_ptr->enc_dec_process_init_count,
             enc_dec_tasks_creator,
             &mode_decision_result_init_data,
@@ -1714,7 +1710,7 @@ EB_API EbErrorType svt_av1_enc_init(EbComponentType *svt_enc_component)
                 mode_decision_configuration_context_ctor,
                 enc_handle_ptr,
                 process_index,
-                enc_dec_port_lookup(ENCDEC_INPUT_PORT_MDC, process_index));
+                enc_dec_port_lookup(enc_dec_ports, ENCDEC_INPUT_PORT_MDC, process_index));
         }
     }
 
@@ -1732,7 +1728,7 @@ EB_API EbErrorType svt_av1_enc_init(EbComponentType *svt_enc_component)
             enc_dec_context_ctor,
             enc_handle_ptr,
             process_index,
-            enc_dec_port_lookup(ENCDEC_INPUT_PORT_ENCDEC, process_index),
+            enc_dec_port_lookup(enc_dec_ports, ENCDEC_INPUT_PORT_ENCDEC, process_index),
             enc_handle_ptr->scs_instance_array[0]->scs_ptr->source_based_operations_process_init_count + process_index);
     }
 
@@ -1778,7 +1774,7 @@ EB_API EbErrorType svt_av1_enc_init(EbComponentType *svt_enc_component)
             entropy_coding_context_ctor,
             enc_handle_ptr,
             process_index,
-            rate_control_port_lookup(RATE_CONTROL_INPUT_PORT_ENTROPY_CODING, process_index));
+            rate_control_port_lookup(rate_control_ports, RATE_CONTROL_INPUT_PORT_ENTROPY_CODING, process_index));
     }
 
     // Packetization Context
@@ -1786,7 +1782,7 @@ EB_API EbErrorType svt_av1_enc_init(EbComponentType *svt_enc_component)
         enc_handle_ptr->packetization_context_ptr,
         packetization_context_ctor,
         enc_handle_ptr,
-        rate_control_port_lookup(RATE_CONTROL_INPUT_PORT_PACKETIZATION, 0),
+        rate_control_port_lookup(rate_control_ports, RATE_CONTROL_INPUT_PORT_PACKETIZATION, 0),
         enc_handle_ptr->scs_instance_array[0]->scs_ptr->source_based_operations_process_init_count +
             enc_handle_ptr->scs_instance_array[0]->scs_ptr->enc_dec_process_init_count);
 
